@@ -10,7 +10,7 @@ import qbft_engine as qe
 def main():
     R = vp.Result("C04")
     R.assumptions = [
-        "PARTIAL / STAGE 1: honest_never_unjust and good_round_decides (DESIGN.md C04) are NOT yet proved at network level; Properties/C04.v proves the single-process facts they rest on",
+        "PARTIAL: good_round_decides (termination) is NOT proved; honest_never_unjust is proved at network level for no Byzantine members and no Compare failures, without the verifyMsgLimits clause; the rotation bound is proved",
         "termination is only OBSERVED: cluster-timely schedules of the real qbft.Run (n = 1..7, at most f members crashed possibly mid-broadcast or never started, inputs present, all messages delivered in random order before any timer fires, all running undecided members time out together when the network is quiet) must end with every running member deciding within n+3 timeout waves; the bridge from real time to this schedule is not modelled",
         "the never-unjust monitor is evaluated on executions in which every process is a real honest qbft.Run and Compare never fails (with scripted Compare failures the statement is false by design: cluster-cmpmix executions are excluded)",
     ]
